@@ -7,7 +7,7 @@ THOROUGH_CONFIGS = ['dot', 'router']
 
 
 MANIFEST = {
-    "text": "Static decision of the marker mechanisms: longest-name-first ordering (a descending-length sort dominates the replacement loop in MarkerString::new and the return of Rule::variables); agreement of the matching and the capturing template (same escaped source, same marker expression, same `@name` token, pieces `(?:`..`)` and `(?P<name>`..`)`); the transformer dispatch table and in-order application; capture coverage of path, host and every header condition; substitution through StaticOrDynamic::replace at all value sites; and the header-name comparison discipline (both operands lower-cased at every comparison of a header name). Regex semantics and the heck / str transformers are trusted. Also: each simple transformer applies the function it is named after (R10.8).",
+    "text": "Static decision of the marker mechanisms: longest-name-first ordering (a descending-length sort dominates the replacement loop in MarkerString::new and the return of Rule::variables); agreement of the matching and the capturing template (same escaped source, same marker expression, same `@name` token, pieces `(?:`..`)` and `(?P<name>`..`)`); the transformer dispatch table and in-order application; capture coverage of path, host and every header condition; substitution through StaticOrDynamic::replace at all value sites; and the header-name comparison discipline (both operands lower-cased at every comparison of a header name). Regex semantics and the heck / str transformers are trusted. Also: each simple transformer applies the function it is named after (R10.8). Also (round 5): Rule::variables lists the raw captures only for a rule that declares no variable.",
     "technique": "static analysis: dominance, provenance and string-constant tables over MIR",
 }
 
